@@ -228,6 +228,21 @@ func dethunkMapDepthFirst(m map[string]interface{}) {
 	}
 }
 
+// dethunkValueDepthFirst forces v if it is a thunk and then everything
+// deferred beneath it.
+func dethunkValueDepthFirst(v interface{}) interface{} {
+	if f, ok := v.(func() interface{}); ok {
+		v = f()
+	}
+	switch val := v.(type) {
+	case map[string]interface{}:
+		dethunkMapDepthFirst(val)
+	case []interface{}:
+		dethunkListDepthFirst(val)
+	}
+	return v
+}
+
 func dethunkListDepthFirst(list []interface{}) {
 	for i, v := range list {
 		if f, ok := v.(func() interface{}); ok {
